@@ -150,6 +150,38 @@ static int64_t realMonoNs() {
   return ts.tv_sec * 1000000000LL + ts.tv_nsec;
 }
 
+// Boolean plugin arguments have three documented spellings each (true/True/1, false/False/0). The generators and
+// the oracles write and read "true" / "false"; when the scenario carries a non-zero "bool_spelling" the
+// configuration handed to oomd spells every boolean argument of a core plugin (not of the scripted vp_* plugins,
+// which read their own arguments) in one of the other accepted ways, chosen per occurrence from that number.
+static void respellWalk(Json::Value& v, unsigned& state, bool inArgs) {
+  if (v.isObject()) {
+    bool scripted = v.isMember("name") && v["name"].isString() && v["name"].asString().compare(0, 3, "vp_") == 0;
+    for (auto& k : v.getMemberNames()) {
+      if (k == "args" && scripted) continue;
+      respellWalk(v[k], state, inArgs || k == "args");
+    }
+  } else if (v.isArray()) {
+    for (auto& x : v) respellWalk(x, state, inArgs);
+  } else if (inArgs && v.isString()) {
+    const std::string t = v.asString();
+    if (t == "true" || t == "false") {
+      state = state * 1103515245u + 12345u;
+      unsigned pick = (state >> 16) % 3;
+      static const char* T[3] = {"true", "True", "1"};
+      static const char* F[3] = {"false", "False", "0"};
+      v = t == "true" ? T[pick] : F[pick];
+    }
+  }
+}
+static Json::Value respellBools(const Json::Value& cfg, unsigned spelling) {
+  if (spelling == 0) return cfg;
+  Json::Value c = cfg;
+  unsigned state = spelling;
+  respellWalk(c, state, false);
+  return c;
+}
+
 RunResult runDaemon(const Json::Value& sc, const DaemonHooks* hooks) {
   auto& P = Process::get();
   Sim& sim = *P.sim;
@@ -263,7 +295,7 @@ RunResult runDaemon(const Json::Value& sc, const DaemonHooks* hooks) {
   g.active = true;
   try {
     Oomd::Config2::JsonConfigParser parser;
-    auto ir = parser.parse(jstr(sc["config"]));
+    auto ir = parser.parse(jstr(respellBools(sc["config"], sc.get("bool_spelling", 0).asUInt())));
     Oomd::PluginConstructionContext pcc(sim.cgroot());
     auto engine = Oomd::Config2::compile(*ir, pcc);
     if (!engine) {
@@ -275,7 +307,7 @@ RunResult runDaemon(const Json::Value& sc, const DaemonHooks* hooks) {
           engine->removeDropInConfig(d["tag"].asString());
           continue;
         }
-        auto dir = parser.parse(jstr(d["config"]));
+        auto dir = parser.parse(jstr(respellBools(d["config"], sc.get("bool_spelling", 0).asUInt())));
         auto unit = Oomd::Config2::compileDropIn(*ir, *dir, pcc);
         if (!unit || !engine->addDropInConfig(d["tag"].asString(), std::move(*unit))) {
           R.config_error = "drop-in rejected";
@@ -514,6 +546,12 @@ int harnessMain(int argc, char** argv, const HarnessDef& def) {
     long shrink_budget = getenv("VP_SHRINK_BUDGET") ? atol(getenv("VP_SHRINK_BUDGET")) : 600;
     bool ok = rc::check(def.prop, [&]() {
       Json::Value c = def.gen();
+      // other accepted spellings of boolean plugin arguments (see respellBools), drawn after the harness' own
+      // generator so that its stream of choices is unchanged
+      if (c.isObject() && c.isMember("config") && !c.isMember("bool_spelling") &&
+          *rc::gen::resize(100, rc::gen::inRange(0, 100)) < 30) {
+        c["bool_spelling"] = *rc::gen::resize(100, rc::gen::inRange(1, 1 << 30));
+      }
       if (camp.failed && ++shrink_runs > shrink_budget) {
         // shrinking budget used up: answer "passes" so that rapidcheck stops
         // looking for smaller cases; the last failing case is kept.
